@@ -155,6 +155,13 @@ CheckHttp(r) ==
   \* (an unnamed add gets a generated name: any accepted add of this person explains a running Parse)
   /\ \A i \in DOMAIN shown : \A t \in RangeOf(shown[i].running) :
        Report(<<r.p, shown[i].name, t>> \in asked \/ (t = "Parse" /\ \E a \in asked : a[1] = r.p /\ a[3] = "Parse" /\ a[2] = ""), r.id, "C16", <<"running-task-nobody-started-for-this-problem", t>>)
+  \* C16: "the models eventually stored and returned": once nothing is pending, every solve this person was granted for this
+  \* problem has left a result (or an error) - unless the problem was deleted or the account renamed / deleted meanwhile
+  /\ (quiet /\ "final" \in DOMAIN r) =>
+       \A i \in DOMAIN shown : \A a \in asked :
+         (a[1] = r.p /\ a[2] = shown[i].name /\ a[3] # "Parse") =>
+           Report(\E k \in DOMAIN shown[i].per : shown[i].per[k].strategy = a[3] /\ shown[i].per[k].type # "None",
+                  r.id, "C16", <<"accepted-solve-result-never-stored", a[3]>>)
   \* conformance with the service model (drift only): the commands this request sent to the database are exactly the
   \* footprint of its handler in Server.tla - same commands, same collections, same FILTER KEYS - and every task result is
   \* written with update_one {name, username}
@@ -226,7 +233,11 @@ Next ==
             /\ actors' = IF r.p # 0 THEN actors \cup {r.p} ELSE actors
             \* which tasks did this person ever start (accepted add -> Parse, accepted solve -> that strategy)
             /\ asked' = IF r.status = 200 /\ r.op = "solve" THEN asked \cup {<<r.p, r.args.name, r.args.strategy>>}
-                         ELSE IF r.status = 200 /\ r.op = "add" THEN asked \cup {<<r.p, r.args.name, "Parse">>} ELSE asked
+                         ELSE IF r.status = 200 /\ r.op = "add" THEN asked \cup {<<r.p, r.args.name, "Parse">>}
+                         \* a deleted problem takes its grants along; a rename / account deletion may lose pending results (not judged)
+                         ELSE IF r.op = "delete" THEN { a \in asked : ~(a[1] = r.p /\ a[2] = r.args.name) }
+                         ELSE IF r.op \in {"update", "delete_account"} THEN { a \in asked : a[1] # r.p }
+                         ELSE asked
             /\ UNCHANGED <<prevprobs, race, quiet>>
        [] r.kind = "db" ->
             /\ CheckDb(r) \in BOOLEAN
